@@ -457,6 +457,9 @@ def _exec(env, zk, phase):
         return 'ok'
     except fakezk_archive.Cut:
         return 'cut'
+    except fakezk_archive.TransientError:
+        # the archiver stopped on a failed write; what it wrote while unwinding is in the tree
+        return 'cut'
     except fakezk_archive.Runaway:
         return 'runaway'
     except ValueError:
@@ -501,12 +504,16 @@ def run_impl(case, pid):
             v = _View(env, state)
             return 4 * (len(v.live) + len(v.fin) + sum(len(x) for x in v.snaps.values())) + 20
 
-        def one_run(state, phase, cut, baseline=None, label=None):
+        def one_run(state, phase, cut, baseline=None, label=None, transient=False):
             """Run `phase` on `state` (mutated) with the given cut; record obs + monitor."""
             before = _View(env, state)
-            state.arm(cut, budget(state))
+            state.arm(cut, budget(state), transient)
             st = _exec(env, state, phase)
             writes = state.writes
+            if transient and st == 'cut':
+                # writes applied after the failed one (by finally / except blocks): none are expected
+                # from an archiver that simply stops; they are part of the observed state and count
+                writes = min(writes, cut) if writes == cut else writes
             state.arm(None)
             after = _View(env, state)
             run.op(_line(phase, cut), 'st=%s w=%d %s' % (st, writes if st != 'ValueError' else 0,
@@ -588,6 +595,14 @@ def run_impl(case, pid):
                     if cut % recover == 0:
                         one_run(cur, phase, None, baseline=base_view, label='restart-after-cut-%d' % cut)
                         stats['restarts'] += 1
+                    if cut % 2 == 0:
+                        # the same stop, caused by a failed write the client survives
+                        cur2 = base.clone()
+                        run.op('restore', 'ok')
+                        st2, _b2, _a2 = one_run(cur2, phase, cut, transient=True)
+                        stats['transient'] = stats.get('transient', 0) + 1
+                        if st2 != 'cut':
+                            run.tags.add('transient-not-stopping')
                 final = base.clone()
                 run.op('restore', 'ok')
                 st, before, after = one_run(final, phase, None)
